@@ -22,6 +22,9 @@ pub struct Case {
     /// server roles: sink futures created (and polled once) while the handshake service is still running; true = dropped at once
     #[serde(default)]
     pub pre: Vec<(SendKind, bool)>,
+    /// v5: the peer answers every second QoS 2 publish with a negative PUBREC
+    #[serde(default)]
+    pub neg: bool,
 }
 
 fn fail(c: &Case, rule: &str, detail: String) -> Failure {
@@ -30,6 +33,7 @@ fn fail(c: &Case, rule: &str, detail: String) -> Failure {
 
 pub async fn run_case(c: Case) -> Result<CaseInfo, Failure> {
     let mut w = World::start_pre(c.role, c.limit, LimitHow::Config, 64, None, &|_| {}, &c.pre).await.map_err(|f| fail(&c, "harness-handshake", f.detail))?;
+    w.neg_pubrec = c.neg;
     let mut cancelled_parked = false;
     let mut lifted_full = false;
     let mut batch_with_waiters = false;
@@ -171,6 +175,27 @@ pub async fn run_case(c: Case) -> Result<CaseInfo, Failure> {
             _ => {}
         }
     }
+    // with nothing pending and nothing outstanding the whole window must be usable: `limit` fresh senders all reach the wire
+    if stuck.is_empty() && outstanding == 0 && !backpressure && !header_out && !w.ended() {
+        let before = w.requests.iter().filter(|r| r.t == 3).count();
+        for _ in 0..w.limit {
+            w.force_send(SendKind::Qos1);
+        }
+        w.apply(Op::Settle).await.map_err(|f| fail(&c, &f.rule, f.detail))?;
+        let after = w.requests.iter().filter(|r| r.t == 3).count();
+        if after - before != w.limit && !w.ended() {
+            return Err(Failure::new(
+                "sender-stuck",
+                format!("C13/{}/sender-stuck", c.role.name()),
+                format!("at quiescence nothing is outstanding, yet only {} of {} fresh QoS 1 senders reached the wire (credit() = {:?}): a slot of the send window was lost; futures {:?}", after - before, w.limit, w.eut.credit(), w.results_summary()),
+            ));
+        }
+        let n = w.unanswered.len() as u8;
+        if n > 0 {
+            w.apply(Op::Ack { n, batch: true }).await.map_err(|f| fail(&c, &f.rule, f.detail))?;
+        }
+        w.poll_all();
+    }
     w.eut.finish().await;
     let nt = cancelled_parked || lifted_full || batch_with_waiters || stream_paused;
     let mut info = if nt { CaseInfo::nontrivial(&(c.role, c.limit, &trace)) } else { CaseInfo::trivial() };
@@ -220,7 +245,7 @@ fn op_strategy() -> BoxedStrategy<Op> {
 fn case_strategy(role: Role) -> BoxedStrategy<Case> {
     // one history in four (server roles) starts with futures created while the handshake service is still running
     let pre = prop_oneof![3 => Just(Vec::new()), 1 => prop::collection::vec((send_kind(), any::<bool>()), 1..5)];
-    (1u16..4, prop::collection::vec(op_strategy(), 3..26), pre).prop_map(move |(limit, ops, pre)| Case { role, limit, ops, pre: if role.is_server() { pre.into_iter().map(|(k, d)| (if matches!(k, SendKind::Subscribe | SendKind::Unsubscribe) { SendKind::Qos1 } else { k }, d)).collect() } else { Vec::new() } }).boxed()
+    (1u16..4, prop::collection::vec(op_strategy(), 3..26), pre, prop::bool::weighted(0.3)).prop_map(move |(limit, ops, pre, neg)| Case { role, limit, ops, neg: neg && role.is_v5(), pre: if role.is_server() { pre.into_iter().map(|(k, d)| (if matches!(k, SendKind::Subscribe | SendKind::Unsubscribe) { SendKind::Qos1 } else { k }, d)).collect() } else { Vec::new() } }).boxed()
 }
 
 pub fn check_case(c: &Case) -> Result<CaseInfo, Failure> {
